@@ -336,7 +336,11 @@ class C09(Check):
                             # open finding F-B7: the problem is numerically singular but LAPACK's Cholesky goes through (no
                             # LinAlgError, min_influence not triggered) -> status 0 with huge finite coefficients.  Anything
                             # else (well-conditioned problem, or the fallback was entered and still status 0) is a violation.
-                            clause = 'singular-status0' if (singular and not fallback_in_call) else 'optimum-after-masking'
+                            # ... and only if the documented min_influence guard (diagonal of A^T W A <= 1e-10 * sum(w) / ncoeff)
+                            # was legitimately silent: a fit that slips past a guard that should have fired is a regression
+                            diagN = np.sum(w[:, None] * A * A, axis=0)
+                            guard_silent = bool(diagN.min() > 1.0e-10 * float(w.sum()) / A.shape[1])
+                            clause = 'singular-status0' if (singular and not fallback_in_call and guard_silent) else 'optimum-after-masking'
                             out.expect(chi <= chi_ref + 1e-7 * scale, clause,
                                        'status 0 after %d step(s) but chi-square %.6g is not the minimum %.6g attainable with the '
                                        'unmasked breakpoints (rank %d of %d, cond %.3g, Cholesky fallback entered: %s)'
